@@ -8,11 +8,13 @@ META = {
               "coap_malloc_type / coap_realloc_type may independently return NULL (any subset, which includes 'exactly the k-th' "
               "and every pair): (1) message building incl. forced buffer growth and out-of-order insert, (2) "
               "coap_path_into_optlist / coap_query_into_optlist, (3) coap_send_internal of a Confirmable (node allocation after the "
-              "write), (4) coap_get_uri_path / coap_get_query / coap_new_error_response. Obligations: documented error return, "
+              "write), (4) coap_get_uri_path / coap_get_query / coap_new_error_response, (5) coap_uri_into_optlist, (6) observe registration "
+              "(coap_add_observer incl. coap_pdu_duplicate_lkd; failing allocation k concrete 0..5, token symbolic), (7) coap_add_data_large_request_lkd "
+              "for a body that needs transfer state (lg_xmit, app token, skeletal PDU; index of the failing allocation SYMBOLIC 0..4). Obligations: documented error return, "
               "accepted part of the message intact (accessor model), nothing leaked (CBMC memory-leak check), no double free / use "
               "after free (CBMC deallocated-object checks), PDU given to send consumed exactly once, the same operation succeeds "
               "once memory is available.",
-    "outside": "scenarios not in the catalogue: block-wise transfers, observe registration, OSCORE exchanges, session/context set-up and "
+    "outside": "scenarios not in the catalogue: block-wise transfers beyond handing the body over, OSCORE exchanges, session/context set-up and "
                "tear-down, receive path (coap_handle_dgram allocations)",
     "assumptions": ["allocator stub env.c with ENV_ALLOC_MAY_FAIL; all libcoap allocations go through coap_malloc_type/coap_realloc_type"],
 }
@@ -37,13 +39,17 @@ def jobs():
                       timeout=1800, est_gb=4, desc="%s: any subset of allocations fails" % desc, bounds={"scenario": name}))
     # concrete "fail exactly the k-th allocation" (any-subset made the buffer sizes symbolic: SAT out of memory at 12 GB); k past the last allocation = no failure
     for k in range(0, 6):
-        js.append(Job("scenario-observe@fail%d" % k, "C18/c18.c", "c18_observe", UNITS, extra_src=EXTRA, defines=d + ["C18_OBSERVE", "ENV_FAIL_AT=%d" % k],
+        js.append(Job("scenario-observe@fail%d" % k, "C18/c18.c", "c18_observe", UNITS, extra_src=EXTRA, defines=d + ["C18_OBSERVE", "ENV_LOG_QUIET", "ENV_FAIL_AT=%d" % k],
                       remove_bodies=RB_CLIENT + ["coap_cache_derive_key_w_ignore", "coap_delete_cache_key"], unwind=24, flags=FS, timeout=900, est_gb=4,
-                      group="scenario-observe", witness=(k <= 3),
+                      group="scenario-observe", witness=(k <= 3),   # k symbolic: SAT out of memory at 12 GB (sizes become symbolic)
                       desc="observe registration (coap_add_observer): allocation #%d fails" % k, bounds={"scenario": "observe", "failing allocation": k}))
-    for k in range(0, 7):
-        js.append(Job("scenario-large@fail%d" % k, "C18/c18.c", "c18_large", UNITS, extra_src=EXTRA, defines=[x for x in d if x != "UNREACH_LG_CRCV"] + ["C18_LARGE", "ENV_FAIL_AT=%d" % k],
+    for k in range(0, 5):
+        js.append(Job("scenario-large@fail%d" % k, "C18/c18.c", "c18_large", UNITS, extra_src=EXTRA, defines=[x for x in d if x != "UNREACH_LG_CRCV"] + ["C18_LARGE", "C18_LARGE_SECOND", "ENV_LOG_QUIET", "ENV_FAIL_AT=%d" % k],
                       remove_bodies=[r for r in RB_CLIENT if r != "coap_block_new_lg_crcv"], unwind=50, flags=FS, timeout=900, est_gb=4,
-                      group="scenario-large", witness=(k <= 3),
-                      desc="coap_add_data_large_request_lkd (Block1 transfer state for a 40-byte body): allocation #%d fails" % k, bounds={"scenario": "large", "failing allocation": k}))
+                      group="scenario-large", witness=(k <= 2), tier="thorough",
+                      desc="coap_add_data_large_request_lkd (Block1 transfer state for a 100-byte body, followed by a second upload): allocation #%d fails" % k, bounds={"scenario": "large", "failing allocation": k}))
+    js.append(Job("scenario-large@failsym", "C18/c18.c", "c18_large", UNITS, extra_src=EXTRA, defines=[x for x in d if x != "UNREACH_LG_CRCV"] + ["C18_LARGE", "ENV_LOG_QUIET", "ENV_FAIL_SYM=4"],
+                  remove_bodies=[r for r in RB_CLIENT if r != "coap_block_new_lg_crcv"], unwind=50, flags=FS, timeout=900, est_gb=6,
+                  group="scenario-large", desc="coap_add_data_large_request_lkd (Block1 transfer state for a 100-byte body): the k-th allocation fails, k symbolic 0..4",
+                  bounds={"scenario": "large", "failing allocation": "symbolic 0..4 (4 = none fails)"}))
     return js
